@@ -1,7 +1,7 @@
 """Property registry: which contract modules serve which property, and what
 each claim leaves unverified (text copied into every evidence file)."""
 
-ALL_MODULES = ["contracts.c17", "contracts.c12", "contracts.c13", "contracts.c18", "contracts.c09", "contracts.c05", "contracts.c16", "contracts.c04", "contracts.c02", "contracts.c11", "contracts.c19", "contracts.c03", "contracts.c07", "contracts.c06"]
+ALL_MODULES = ["contracts.c17", "contracts.c12", "contracts.c13", "contracts.c18", "contracts.c09", "contracts.c05", "contracts.c16", "contracts.c04", "contracts.c02", "contracts.c11", "contracts.c19", "contracts.c03", "contracts.c07", "contracts.c06", "contracts.c08", "contracts.c02_txn"]
 
 SPECS = {
     "C17": {
@@ -59,6 +59,13 @@ SPECS = {
         "level_note": "The rewrite transactions themselves (that each pass only fires under these guards and performs the declared rewiring) are NOT yet under contract in this revision: a deleted guard call inside a pass is not detected by C02's obligations (the end-to-end witness families are replay material only). Trusted: operator classification tables of specs/onnx_ops.py, assumed contracts of _nested_graph_references_value and _is_scalar_const_value, the four external onnx_ir passes.",
         "design_ref": "DESIGN.md §4.2",
         "unverified_part": "all 16 rewrite transactions (pattern facts, effects, law lemmas), the collectors, the external onnx_ir passes (NameFix, CSE, LiftConstants, RemoveUnusedNodes), exception atomicity inside a transaction.",
+    },
+    "C08": {
+        "modules": ALL_MODULES,
+        "level_text": "Partial claim. Proved for all inputs from the real source: (1) the metadata copy kernels _shape_dims_key, _copy_shape_only and _copy_shape_dtype: after a copy dst declares exactly the dims of src (key by key, the key being the one the code itself compares), src and every other existing shape object are untouched, nothing is written when src declares nothing, the element type is the source's; (2) the metadata effect of the rewrite transactions under contract (see C02): the value that takes over the role of a removed value declares the removed value's dims and element type, keeps no stale dims when there is nothing to copy, and no other existing value changes its declaration; (3) the shape-propagation operator tables are included in a specification table of shape-preserving operators.",
+        "level_note": "Sufficient condition, not the semantic property: 'the surviving value declares what the value it replaces declared' presupposes that the declarations were true before the pass (stamped by the plugins, which are not under contract). Trusted: onnx_ir object model (Value.shape/type, Shape.dims, SymbolicDim repr is a function of its value), allocation-time reasoning of pyvc (no dangling references).",
+        "design_ref": "DESIGN.md §4.8",
+        "unverified_part": "the ~600 plugin stamping sites (_stamp_type_and_shape), ir_postprocess loosening, _finalize_model_value_shapes, _maybe_promote_value_to_double, propagate_*_shapes_ir, _refresh_elementwise_output_shape/_broadcast_shape_dims, transactions not yet under contract.",
     },
     "C11": {
         "modules": ALL_MODULES,
